@@ -125,7 +125,7 @@ def simplify_value(v):
     return v.get('name', str(v))
 
 
-def run_unit(template, tier='quick', keep=True, extra_defs=None, repo=None, build_tag=None):
+def run_unit(template, tier='quick', keep=True, extra_defs=None, repo=None, build_tag=None, first_fail=False):
     """returns result dict"""
     t_start = time.time()
     if repo:
@@ -224,6 +224,19 @@ def run_unit(template, tier='quick', keep=True, extra_defs=None, repo=None, buil
     sel_args = []
     for nme in selected:
         sel_args += ['--property', nme]
+    if first_fail:
+        # debugging aid: stop at the first failing property and show the violated property + last assignments
+        ff = os.path.join(bdir, 'firstfail.txt')
+        run(base + sel_args + ['--stop-on-fail'], os.path.join(bdir, 'firstfail.log'), tmo, mem, stdout_path=ff)
+        txt = open(ff, errors='replace').read()
+        i = txt.find('Violated property:')
+        states = re.findall(r'^State \d+ file (\S+) function (\S+) line (\d+).*\n-+\n  (.*)$', txt[:i if i > 0 else len(txt)], re.M)
+        for st in states[-int(os.environ.get('VERIF_FF_STATES', '45')):]:
+            if st[1] != '__CPROVER_initialize':
+                print('  %s:%s  %s' % (st[1], st[2], st[3][:160]))
+        print(txt[i:i + 900] if i > 0 else txt[-600:])
+        res['reason'] = 'first-fail debug run'
+        return res
     outj = os.path.join(bdir, 'cbmc.json')
     cmd = base + sel_args + ['--json-ui', '--verbosity', '6']
     rc, secs = run(cmd, os.path.join(bdir, 'cbmc.log'), tmo, mem, stdout_path=outj)
@@ -351,12 +364,13 @@ if __name__ == '__main__':
     ap.add_argument('template')
     ap.add_argument('--tier', default='quick')
     ap.add_argument('-D', action='append', default=[])
+    ap.add_argument('--ff', action='store_true')
     a = ap.parse_args()
     gen_consts()
     t = a.template
     if not os.path.exists(t):
         t = os.path.join(VERIF, 'units', t + '.u.c')
-    r = run_unit(t, a.tier, extra_defs=a.D)
+    r = run_unit(t, a.tier, extra_defs=a.D, first_fail=a.ff)
     brief = {k: r[k] for k in ('unit', 'status', 'reason', 'obligations', 'discharged', 'solver_s', 'wall_s', 'canary')}
     print(json.dumps(brief))
     for o in r['failed'][:20]:
